@@ -215,4 +215,108 @@ theorem dequeueLoop_matches_source (cfg : Cfg) (now n : Nat) (k : String) (ks : 
     simp only [Gen.Src.c12DequeuePurges, Gen.Src.c12DequeueSkipsPending, Gen.Src.c12DequeueDue,
       Gen.Src.c12DequeueFull, ← expired_matches_source, ← elapsed_matches_source, decide_eq_true_eq]
 
+/-! ## decision trees: the ORDER of the tests, the nesting and the exits are the source's too -/
+
+/-- **the body of the `Dequeue` loop is the source's decision tree**: expired → `continue` (after `delete`);
+pending → `continue`; elapsed → hand out, and `break` iff `len(results) >= n`; otherwise the end of the body.
+Which exit is taken under which conditions and in which order the conditions are tested are read off the source on
+every run (`c12DequeueTree`); the model's loop takes the corresponding step for every record, queue and output. -/
+theorem dequeueLoop_tree_matches_source (cfg : Cfg) (now n : Nat) (k : String) (ks : List String) (q : Queue)
+    (out : List Payload) :
+    dequeueLoop cfg now n (k :: ks) q out =
+      match get q k with
+      | none => dequeueLoop cfg now n ks q out
+      | some r =>
+        match Gen.Src.c12DequeueTree (expired cfg now r) r.pending (elapsed now r) (out ++ [r.payload]).length n with
+        | 1 => dequeueLoop cfg now n ks (del q k) out                                  -- `delete`, `continue`
+        | 2 => dequeueLoop cfg now n ks q out                                          -- `continue`
+        | 3 => (put q k { r with pending := true }, out ++ [r.payload])                -- handed out, `break`
+        | _ =>                                                                          -- end of the body
+          if elapsed now r then dequeueLoop cfg now n ks (put q k { r with pending := true }) (out ++ [r.payload])
+          else dequeueLoop cfg now n ks q out := by
+  conv => lhs; unfold dequeueLoop
+  cases get q k with
+  | none => rfl
+  | some r =>
+    simp only [Gen.Src.c12DequeueTree]
+    by_cases he : expired cfg now r = true
+    · simp [he]
+    · by_cases hp : r.pending = true
+      · simp [he, hp]
+      · by_cases hl : elapsed now r = true
+        · by_cases hn : n ≤ out.length + 1
+          · simp [he, hp, hl, hn]
+          · simp [he, hp, hl, hn]
+        · simp [he, hp, hl]
+
+/-- **one step of the pairing loop of retry.go is the source's decision tree**: `if idx < 0 { idx = j }`, then the
+block/hash comparison with `idx = j; break` — `srcInner` (the source-shaped loop `matchPayload` is proved equal to
+in `matchPayload_matches_source`) leaves through the `break` exactly when the regenerated tree does -/
+theorem srcInner_tree_matches_source (r : CheckResult) (p : Payload) (cs : List Payload) (pos : Nat) (idx : Int) :
+    srcInner r (p :: cs) pos idx =
+      match Gen.Src.c12RetryInnerTree idx p.trigger.blockNumber r.trigger.blockNumber p.trigger.blockHash r.trigger.blockHash with
+      | 1 => (pos : Int)                                                                       -- `idx = j; break`
+      | _ => srcInner r cs (pos + 1) (if Gen.Src.c12RetryNoCandidate idx then (pos : Int) else idx) := by
+  conv => lhs; unfold srcInner
+  simp only [Gen.Src.c12RetryInnerTree, Gen.Src.c12RetryBlockMatch]
+  by_cases hb : (decide (p.trigger.blockNumber = r.trigger.blockNumber) && decide (p.trigger.blockHash = r.trigger.blockHash)) = true
+  · by_cases hi : idx < 0 <;> simp [hb, hi]
+  · by_cases hi : idx < 0 <;> simp [hb, hi]
+
+private theorem idx_valid (r : CheckResult) (cs : List Payload) (h : ¬ srcInner r cs 0 (-1) < 0) :
+    ∃ p, cs[(srcInner r cs 0 (-1)).toNat]? = some p := by
+  rw [srcInner_start] at h ⊢
+  cases hf : cs.findIdx? (fun p => blockMatch p r) with
+  | some k =>
+    have hk := (List.findIdx?_eq_some_iff_getElem.mp hf).1
+    exact ⟨cs[k], by simp [hk]⟩
+  | none =>
+    cases cs with
+    | nil => simp [hf] at h
+    | cons a t => exact ⟨a, by simp⟩
+
+/-- **one iteration of the outer loop of retry.go is the source's decision tree**: retryable failure? → (pairing) →
+`idx < 0`? → `i >= len(payloads)`? → `continue`; everything else reaches the `Enqueue` and the end of the body.
+`idx` is the variable of the source after the pairing loop (`srcInner`, position among the payloads carrying the
+result's work id, `-1` = none). -/
+theorem retryLoop_tree_matches_source (ps : List Payload) (i : Nat) (res : Res) (rest : List Res) :
+    retryLoop ps i (res :: rest) =
+      match Gen.Src.c12RetryOuterTree res.cr.pes res.cr.retryable (srcInner res.cr (candidates ps res.cr.workID) 0 (-1))
+          i ps.length true with
+      | 1 => retryLoop ps (i + 1) rest                                                 -- fallback out of range: `continue`
+      | _ =>                                                                            -- end of the body
+        if res.retryableFail then
+          match (if srcInner res.cr (candidates ps res.cr.workID) 0 (-1) < 0 then ps[i]?
+                 else (candidates ps res.cr.workID)[(srcInner res.cr (candidates ps res.cr.workID) 0 (-1)).toNat]?) with
+          | some p => { payload := p, interval := res.retryInterval } :: retryLoop ps (i + 1) rest
+          | none => retryLoop ps (i + 1) rest
+        else retryLoop ps (i + 1) rest := by
+  rw [retryLoop_matches_source, matchPayload_matches_source]
+  simp only [Gen.Src.c12RetryOuterTree, ← retryableFail_matches_source, Gen.Src.c12RetryNoCandidate,
+    Gen.Src.c12RetryFallbackOutOfRange, Res.retryableFail]
+  by_cases hr : ¬res.cr.pes = 0 ∧ res.cr.retryable = true
+  · by_cases hi : srcInner res.cr (candidates ps res.cr.workID) 0 (-1) < 0
+    · by_cases hn : ps.length ≤ i
+      · simp [hr, hi, hn]
+      · simp [hr, hi, hn]
+    · obtain ⟨p, hp⟩ := idx_valid res.cr (candidates ps res.cr.workID) hi
+      simp [hr, hi, hp]
+  · simp [hr]
+
+/-- **the body of the ineligible post-processor's loop is the source's decision tree**: selected
+(`PipelineExecutionState == 0 && !Eligible`)? → the state updater is called → failed? → `continue` (error joined) —
+for one result, whatever the sinks held before -/
+theorem ineligiblePP_tree_matches_source (rt : List Res → List Payload → List RetryRecord) (ue : CheckResult → Bool)
+    (r : Res) (ps : List Payload) (s : Sinks) :
+    PP.run rt ue [r] ps s .ineligible =
+      match Gen.Src.c12IneligibleTree r.cr.pes r.cr.eligible (ue r.cr) with
+      | 1 => { s with ineligible := s.ineligible ++ [r.cr], err := true }            -- updater failed: `continue`
+      | _ => if Gen.Src.c12Ineligible r.cr.pes r.cr.eligible then { s with ineligible := s.ineligible ++ [r.cr] } else s := by
+  simp only [PP.run, Gen.Src.c12IneligibleTree, Gen.Src.c12Ineligible, Res.succIneligible]
+  by_cases hsel : (decide (r.cr.pes = 0) && !r.cr.eligible) = true
+  · by_cases hu : ue r.cr = true
+    · simp [hsel, hu]
+    · simp [hsel, hu]
+  · simp [hsel]
+
 end AutoVerif.C12
